@@ -68,6 +68,15 @@ class Flow:
     NORMAL, RETURN, RAISE, BREAK, CONTINUE = range(5)
 
 
+def _arrayish(v):
+    """an abstract value that stands for an array (in-place arithmetic on it changes the object every holder sees), not for a number"""
+    from . import imgdom as _img
+    if isinstance(v, (Arr,)) or type(v).__module__ == _img.__name__:
+        return True
+    return isinstance(v, (Val, Unk)) and (getattr(v, "rank", None) is not None or getattr(v, "space", None) is not None or getattr(v, "fresh", None) is not None
+                                          or getattr(v, "axes", None) is not None)
+
+
 class Frame_:
     """activation record"""
 
@@ -79,6 +88,7 @@ class Frame_:
         self.owner_cls = owner_cls
         self.ret_guards = []
         self.base_guards = 0
+        self.inplace_names = set()  # names whose ARRAY value was updated in place (x += .., ufunc(.., out=x), x[..] = ..): an argument's caller sees it
 
 
 class Result:
@@ -258,6 +268,29 @@ class Interp:
         finally:
             self.stack.pop()
             self.guards = saved_guards
+        if fr.inplace_names and self.stack and isinstance(node, ast.Call):
+            # an array parameter updated in place inside the callee is the caller's array: the caller's variable sees the update
+            a_ = f.node.args
+            pnames = [x.arg for x in a_.posonlyargs + a_.args]
+            if getattr(f, "bound", None) is not None and pnames:
+                pnames = pnames[1:]
+            caller = self.stack[-1]
+            argnode = {}
+            for i_, an_ in enumerate(node.args):
+                if isinstance(an_, ast.Starred):
+                    break
+                if i_ < len(pnames):
+                    argnode[pnames[i_]] = an_
+            for k_ in node.keywords:
+                if k_.arg is not None:
+                    argnode[k_.arg] = k_.value
+            for p_ in fr.inplace_names:
+                an_ = argnode.get(p_)
+                if isinstance(an_, ast.Name) and an_.id in caller.env and p_ in fr.env:
+                    g_ = self.store_guard()
+                    caller.env[an_.id] = fr.env[p_] if g_ is None else self.join(g_, fr.env[p_], caller.env[an_.id])
+                    caller.inplace_names.add(an_.id)
+                    self.record("inplace", "through-callee", [fr.env[p_]], {}, node, {"callee": f.qual, "parameter": p_, "argument": an_.id})
         self._last_env = fr.env
         self._last_returns = fr.returns
         if not fr.returns:
@@ -322,6 +355,8 @@ class Interp:
                 v.view_of = vo
                 self.record("inplace", "through-view", [arr_, v], {}, st, {"column": k_})
             self.assign(st.target, v, fr, st, aug=True)
+            if isinstance(st.target, ast.Name) and _arrayish(cur):
+                fr.inplace_names.add(st.target.id)
             return Flow.NORMAL
         if isinstance(st, ast.Return):
             v = self.eval(st.value, fr) if st.value is not None else K(None)
@@ -740,6 +775,8 @@ class Interp:
                     j_.axes = list(grid_side)
             return j_
         if isinstance(a, Arr) and isinstance(b, Arr) and len(a.cols) == len(b.cols):
+            if a.ndim == b.ndim and all(x == y for x, y in zip(a.cols, b.cols)) and getattr(a, "notes", None) == getattr(b, "notes", None):
+                return a  # the same array on both paths (a branch that did not touch it): its history stays with it
             return Arr([mk("ite", cterm, x, y) for x, y in zip(a.cols, b.cols)], a.ndim, a.space or b.space)
         if isinstance(a, Rot) and isinstance(b, Rot):
             return Rot(mk("ite", cterm, a.term, b.term))
@@ -1232,6 +1269,7 @@ class Interp:
             self.record("inplace", "out=", [cur], {}, node, {"fresh": getattr(cur, "fresh", None)})
             g_ = self.store_guard()
             fr.env[out_kw[0].value.id] = res if g_ is None else self.join(g_, res, cur)
+            fr.inplace_names.add(out_kw[0].value.id)
             return res
         return self.call(f, args, kwargs, node, fr)
 
